@@ -55,6 +55,7 @@ static _Atomic uint64_t ev_seq;
 
 void (*rsv_on_hang)(const char *why);
 void (*rsv_ev_callback)(const struct rsv_rec *r);
+void (*rsv_yield_callback)(int site, int thr);
 
 static inline uint64_t nxt(void)
 {
@@ -279,6 +280,8 @@ void rsv_yield(int site)
 	if(me < 0 || cfg.mode == RSV_MODE_OFF)
 		return;
 	vts[me].last_site = site;
+	if(rsv_yield_callback)
+		rsv_yield_callback(site, me);
 	if(cfg.mode == RSV_MODE_FREE) {
 		if(cfg.free_perturb_per_1024)
 			free_perturb(site);
